@@ -132,6 +132,7 @@ class Hist:
         self.next_in = 1            # the counterparty's next outbound number
         self.sent = 1               # rough count of our outbound numbers
         self.ops = []
+        self.allow_y = kw.get("allow_y", True)     # may generated Logons carry ResetSeqNumFlag=Y?
         p = ["START", role, persist]
         if kw.get("sid"):
             p.append("sid=%s:%s" % kw["sid"])
@@ -154,10 +155,24 @@ class Hist:
             self.next_in += 1
 
     def logon_in(self, hb=None, reset=False):
+        """reset: False/None = no ResetSeqNumFlag, True/"Y" = 141=Y (the counterparty restarts at 1), "N" = an
+        explicit 141=N (not a reset: the VALUE of the flag counts)."""
         body = [(98, 0), (108, self.hb if hb is None else hb)]
-        if reset:
+        if reset in (True, "Y"):
             body.append((141, "Y"))
+            self.next_in = 1
+        elif reset == "N":
+            body.append((141, "N"))
         self.inb("A", body)
+
+    def logon_flag(self):
+        """ResetSeqNumFlag of a generated Logon: mostly absent, sometimes an explicit N, for acceptors sometimes Y."""
+        r = self.rng.random()
+        if r < 0.18:
+            return "N"
+        if r < 0.26 and self.role == "A" and self.allow_y:
+            return "Y"
+        return False
 
     # ---- outbound
     def send(self, sp):
@@ -205,7 +220,7 @@ class Hist:
 
 
 def gen_history(rng, role=None, persist=None, nops=None, restart=True, inbound=True, special=True, ticks=True,
-                admin=True, asa=None, logon=True, weird=0.05):
+                admin=True, asa=None, logon=True, weird=0.05, reset_y=True):
     """A mostly valid session: logon exchange, then a random mix of application sends, batches,
     admin sends, in-sequence inbound traffic, timer ticks and restarts."""
     role = role or rng.choice("IA")
@@ -224,9 +239,10 @@ def gen_history(rng, role=None, persist=None, nops=None, restart=True, inbound=T
         kw["sd"] = 1
     if rng.random() < 0.05 and role == "I":
         kw["rsn"] = 1
+    kw["allow_y"] = reset_y
     h = Hist(rng, role, persist, **kw)
     if logon and rng.random() < 0.93:
-        h.logon_in()
+        h.logon_in(reset=h.logon_flag())
     n = nops if nops is not None else rng.randint(2, 14)
     for _ in range(n):
         r = rng.random()
@@ -291,7 +307,7 @@ def gen_history(rng, role=None, persist=None, nops=None, restart=True, inbound=T
             else:
                 # (an acceptor recovers its numbers in handle_logon; since /repo 760121b a MemoryPersister
                 #  returns its last control record, so this is part of the tie for every persister)
-                h.logon_in()
+                h.logon_in(reset=h.logon_flag())
         elif r < 0.95 and ticks:
             if rng.random() < 0.7:
                 h.tick(rng.randint(1, int(hb * 1.4) + 1) * 10**9 + rng.randrange(1000) * 10**6)
@@ -300,7 +316,41 @@ def gen_history(rng, role=None, persist=None, nops=None, restart=True, inbound=T
         elif restart:
             h.restart()
             if rng.random() < 0.85:
-                h.logon_in()
+                h.logon_in(reset=h.logon_flag())
         else:
             h.send(h.app_spec())
+    return h.line()
+
+
+def gen_acceptor_logon(rng, reset_y=True):
+    """Acceptor start numbers: Logons with ResetSeqNumFlag absent / =N / =Y crossed with configured start numbers
+    (ss, rs), file / memory / no persister and restarts; some traffic before and after so that the numbers are not 1/1."""
+    persist = rng.choice(["file", "file", "file", "mem", "none"])
+    kw = {"hb": 30, "asa": 0}
+    if rng.random() < 0.5:
+        kw["ss"] = rng.choice([2, 7, 23, 100])
+    if rng.random() < 0.4:
+        kw["rs"] = rng.choice([2, 5, 40])
+    h = Hist(rng, "A", persist, **kw)
+    if kw.get("rs"):
+        h.next_in = kw["rs"]
+    rounds = rng.randint(1, 3)
+    for k in range(rounds):
+        flag = rng.choice(["N", "N", False, False, "Y" if reset_y else "N"])
+        h.logon_in(reset=flag)
+        for _ in range(rng.randint(0, 3)):
+            r = rng.random()
+            if r < 0.5:
+                h.send(h.app_spec())
+            elif r < 0.7:
+                h.inb("0", [])
+            elif r < 0.85:
+                t = rng.choice(["D", "F"])
+                h.inb(t, app_fields(rng, t, h.now))
+            else:
+                h.batch([h.app_spec(), spec("0")])
+        if k + 1 < rounds:
+            h.restart()
+            if kw.get("rs") and persist != "file":
+                h.next_in = kw["rs"]
     return h.line()
